@@ -255,6 +255,88 @@ Family7 ==
                Stale("archive.T", <<[col0 |-> <<"n", 8>>]>>),
                Stale("logica_home.my_table", <<[col0 |-> <<"n", 9>>]>>)>>]
 
-Families == <<Family1, Family2, Family3, Family4, Family5, Family6, Family7>>
+(* Family 8: chains of non-injectible predicates (compiled as WITH tables)  *)
+(* with NO grounded predicate below, shared by a grounded table and        *)
+(* another parent.  Degree <- Hub is a 2-level chain, Degree <- Hub <- Core *)
+(* a 3-level one.                                                          *)
+(*   Edge(1,2); Edge(1,3); Edge(2,3); Edge(2,3); Edge(3,1);                *)
+(*   Degree(x, d? += 1) distinct :- Edge(x, y);                            *)
+(*   Hub(x) distinct :- Degree(x, d:), d > 1;                              *)
+(*   Core(x, n? += 1) distinct :- Hub(x), Edge(x, y);                      *)
+(*   @Ground(G); G(x) :- Hub(x);        @Ground(H); H(x, n) :- Core(x, n:); *)
+(*   MainFirstG(x) :- G(x), Hub(x);   ground + main, the reader of G first *)
+(*   MainFirstW(x) :- Hub(x), G(x);   ... the WITH table first             *)
+(*   Two(x, n) :- G(x), H(x, n:);     ground + ground, both read Hub        *)
+(*   TwoRev(x, n) :- H(x, n:), G(x);  ... in the other compile order       *)
+(* Version 2: other edges.                                                 *)
+Edge2(a, b) == Fact2(Nm(a), Nm(b))
+F8Edge(es) == Pd("Edge", [i \in 1..Len(es) |-> Edge2(es[i][1], es[i][2])])
+F8Degree == Pd("Degree", <<RlD(<<Hd("col0", Vr("x")), HdAgg("d", "Sum", Nm(1))>>,
+                               <<At("Edge", <<Ar("col0", Vr("x")), Ar("col1", Vr("y"))>>)>>)>>)
+F8Hub == Pd("Hub", <<RlD(<<Hd("col0", Vr("x"))>>,
+                         <<At("Degree", <<Ar("col0", Vr("x")), Ar("d", Vr("d"))>>),
+                           Cm(Bin(">", Vr("d"), Nm(1)))>>)>>)
+F8Core == Pd("Core", <<RlD(<<Hd("col0", Vr("x")), HdAgg("n", "Sum", Nm(1))>>,
+                           <<At("Hub", <<Ar("col0", Vr("x"))>>),
+                             At("Edge", <<Ar("col0", Vr("x")), Ar("col1", Vr("y"))>>)>>)>>)
+F8G == Pd("G", <<Rl(<<Hd("col0", Vr("x"))>>, <<At("Hub", <<Ar("col0", Vr("x"))>>)>>)>>)
+F8H == Pd("H", <<Rl(<<Hd("col0", Vr("x")), Hd("col1", Vr("n"))>>,
+                    <<At("Core", <<Ar("col0", Vr("x")), Ar("n", Vr("n"))>>)>>)>>)
+AtG == At("G", <<Ar("col0", Vr("x"))>>)
+AtHub == At("Hub", <<Ar("col0", Vr("x"))>>)
+AtH == At("H", <<Ar("col0", Vr("x")), Ar("col1", Vr("n"))>>)
+F8One(name, body) == Pd(name, <<Rl(<<Hd("col0", Vr("x"))>>, body)>>)
+F8Pair(name, body) == Pd(name, <<Rl(<<Hd("col0", Vr("x")), Hd("col1", Vr("n"))>>, body)>>)
+F8Prog(es) == Pg(<<F8Edge(es), F8Degree, F8Hub, F8Core, F8G, F8H,
+                   F8One("MainFirstG", <<AtG, AtHub>>), F8One("MainFirstW", <<AtHub, AtG>>),
+                   F8Pair("Two", <<AtG, AtH>>), F8Pair("TwoRev", <<AtH, AtG>>)>>)
+Family8 ==
+  [name |-> "with_chain",
+   versions |-> << Ver(F8Prog(<< <<1, 2>>, <<1, 3>>, <<2, 3>>, <<2, 3>>, <<3, 1>> >>),
+                       <<"logica_test">>, "", <<Gr("G", ""), Gr("H", "")>>),
+                   Ver(F8Prog(<< <<1, 2>>, <<3, 3>>, <<2, 3>>, <<3, 2>>, <<3, 1>> >>),
+                       <<"logica_test">>, "", <<Gr("G", ""), Gr("H", "")>>) >>,
+   runnable |-> <<"MainFirstG", "MainFirstW", "Two", "TwoRev">>,
+   stale |-> <<Stale("logica_test.G", <<[col0 |-> <<"n", 7>>]>>),
+               Stale("logica_test.H", <<[col0 |-> <<"n", 7>>, col1 |-> <<"n", 7>>]>>)>>]
+
+(* Family 9: flag parameters inside the definitions of grounded predicates. *)
+(*   @DefineFlag("who", "daniel");     overridden on the command line with   *)
+(*   E(1); E(2);                       --who=bel in version 2               *)
+(*   @Ground(T); T(x, "seen by ${who}") :- E(x);                            *)
+(*   @Ground(U); U(m ++ " and ${who}") distinct :- T(x, m);                 *)
+(*   S(x, m ++ "!") :- T(x, m);   S2(m) :- U(m);                            *)
+(* A program with flags means the program with every ${flag} replaced by    *)
+(* the flag's value (the value given by the user, else the default): the    *)
+(* family is a function of that text.  `source` is the same function of     *)
+(* the text "${who}" - what is written in the file; `prog` is what it means. *)
+(* flags: Seq([name, default, given]) (given = <<>>: not on the command      *)
+(* line); all three as code points.                                         *)
+seenby == <<115, 101, 101, 110, 32, 98, 121, 32>>
+andw == <<32, 97, 110, 100, 32>>
+daniel == <<100, 97, 110, 105, 101, 108>>
+bel == <<98, 101, 108>>
+whoRef == <<36, 123, 119, 104, 111, 125>>            \* ${who}
+F9T(w) == Pd("T", <<Rl(<<Hd("col0", Vr("x")), Hd("col1", St(seenby \o w))>>,
+                       <<At("E", <<Ar("col0", Vr("x"))>>)>>)>>)
+F9U(w) == Pd("U", <<RlD(<<Hd("col0", Bin("++", Vr("m"), St(andw \o w)))>>,
+                        <<At("T", <<Ar("col0", Vr("x")), Ar("col1", Vr("m"))>>)>>)>>)
+F9S == Pd("S", <<Rl(<<Hd("col0", Vr("x")), Hd("col1", Bin("++", Vr("m"), St(<<33>>)))>>,
+                    <<At("T", <<Ar("col0", Vr("x")), Ar("col1", Vr("m"))>>)>>)>>)
+F9S2 == Pd("S2", <<Rl(<<Hd("col0", Vr("m"))>>, <<At("U", <<Ar("col0", Vr("m"))>>)>>)>>)
+F9Prog(w) == Pg(<<F6E, F9T(w), F9U(w), F9S, F9S2>>)
+FlagValue(f) == IF f.given = <<>> THEN f.default ELSE f.given
+F9Ver(f) == [prog |-> F9Prog(FlagValue(f)), source |-> F9Prog(whoRef), flags |-> <<f>>,
+             attached |-> <<"logica_test">>, dataset |-> "",
+             grounded |-> <<Gr("T", ""), Gr("U", "")>>]
+Family9 ==
+  [name |-> "flags",
+   versions |-> << F9Ver([name |-> "who", default |-> daniel, given |-> <<>>]),
+                   F9Ver([name |-> "who", default |-> daniel, given |-> bel]) >>,
+   runnable |-> <<"S", "S2", "T">>,
+   stale |-> <<Stale("logica_test.T", <<[col0 |-> <<"n", 7>>, col1 |-> <<"s", whoRef>>]>>),
+               Stale("logica_test.U", <<[col0 |-> <<"s", stale>>]>>)>>]
+
+Families == <<Family1, Family2, Family3, Family4, Family5, Family6, Family7, Family8, Family9>>
 
 =============================================================================
